@@ -104,7 +104,8 @@ impl<T> VerifContextOpt<T> for Option<T> {        // anyhow::Context on Option: 
 impl OwnedSemaphorePermit { pub uninterp spec fn n(&self) -> nat; pub uninterp spec fn of(&self) -> int; }
 impl Semaphore {
     pub uninterp spec fn id(&self) -> int;       // ghost identity of the semaphore
-    #[verifier::external_body] pub fn new(permits: usize) -> (r: Self) { unimplemented!() }
+    pub uninterp spec fn capacity(&self) -> usize;     // the number of permits the semaphore was created with: never more are out
+    #[verifier::external_body] pub fn new(permits: usize) -> (r: Self) ensures r.capacity() == permits { unimplemented!() }
     // tokio: acquiring 0 permits from an open semaphore always succeeds (A4)
     #[verifier::external_body]
     pub fn try_acquire_many_owned(self: Arc<Self>, n: u32) -> (r: Result<OwnedSemaphorePermit, ()>)
@@ -150,7 +151,10 @@ def add_dispatch(U):
          header_subs=[("ctx::Ctx", "Ctx"), ("mut read: impl io::AsyncRead + Send + Unpin", "read: Reader"),
                       ("Vec<channel::UnboundedSender<Frame>>", "Vec<FrameSender>", None)],
          proof_at_start="let mut read = read;   /* R-mutparam */",
-         subs=[("loop {\n            let mut header", "let ghost verif_cs = count_sem.id(); let ghost verif_ss = size_sem.id();   /* W-ghost */\n        loop {\n            let mut header"),
+         subs=[("loop {\n            let mut header", "let ghost verif_cs = count_sem.id(); let ghost verif_ss = size_sem.id();   /* W-ghost */\n"
+                "        // W-ghost: the pools that bound the unconsumed frames / bytes hold exactly the CONFIGURED limits\n"
+                "        assert(count_sem.capacity() == self.cfg.read_frame_count as usize && size_sem.capacity() == self.cfg.read_buffer_size as usize);\n"
+                "        loop {\n            let mut header"),
                ("sync::Semaphore::new(", "Semaphore::new(", None),
                ("io::read_exact(ctx, &mut read, &mut header)", "io_read_exact_2(ctx, &mut read, &mut header)   /* R-std */"),
                ("io::read_exact(ctx, &mut read, &mut length)", "io_read_exact_2(ctx, &mut read, &mut length)   /* R-std */"),
